@@ -195,6 +195,15 @@ func genWire(tier string) []proto.RTItem {
 			}
 			items = append(items, mk("udp", "", "2001:db8::77", addrs6[:4], http, rdns))
 			items = append(items, mk("icmp", "", "2001:db8::77", addrs6[2:6], http, rdns))
+			if !http {
+				// the caller's context ends while the runs are in flight (UDP and TCP runs do not look at it and still succeed)
+				for _, pm := range [][2]string{{"udp", ""}, {"tcp", "syn"}} {
+					it := mk(pm[0], pm[1], "203.0.113.77", addrs4[4:8], false, rdns)
+					it.Scn.CancelAtMs = 15
+					it.Class += "/caller-context-cancelled-mid-run"
+					items = append(items, it)
+				}
+			}
 			// a private target: the destination hop itself must be redacted
 			items = append(items, mk("udp", "", "10.9.8.7", []string{"198.51.100.1", "10.1.2.3"}, http, rdns))
 		}
@@ -204,6 +213,9 @@ func genWire(tier string) []proto.RTItem {
 
 func checkWire(it *proto.RTItem, r *proto.RTResult) []proto.Issue {
 	if r.Err != nil {
+		if it.Scn.CancelAtMs > 0 {
+			return nil // reporting the cancellation instead of a result is fine; a result, if any, must be redacted
+		}
 		return []proto.Issue{{Key: "run-error", Detail: r.Err.Error()}}
 	}
 	var out []proto.Issue
